@@ -1,10 +1,21 @@
-import MetadorModel.Proofs.OverlayView
+import MetadorModel.Proofs.OverlayWriteAll
 /-!
-# C01 — IH5 overlay is transparent: patch boundaries are unobservable
+# C01 — IH5 overlay is transparent
 
 Property theorems about `MetadorModel.Overlay` (model of `ih5/overlay.py`: child scan, path
-resolution, write paths) against `MetadorModel.Tree.Spec` (a single plain HDF5-like tree).
-Helper lemmas live in `Proofs/Overlay*.lean`.
+resolution, write paths) against `MetadorModel.Tree.Spec` (a single plain HDF5-like tree):
+
+* (a) `view_newPatch` — a patch boundary is unobservable;
+* (b) `view_snoc`, `view_fold` — reading = applying the patch containers in order;
+* (c) `step_refines` — every write (`set / grp / del / sattr / dattr / copy / move`, boundary)
+  succeeds or fails exactly as on the single tree and leaves a record that shows the resulting
+  tree; `inv_preserved`, `rep_exists`, `init_inv_rep`;
+* (d) `run_refines` — all finite histories, boundaries anywhere; corollaries
+  `deleted_never_reappears`, `replaced_never_reappears`, `created_never_hidden`;
+* (e) `legacy_scan_not_transparent` — the pinned child scan violated (b)/(d).
+
+Helper lemmas live in `Proofs/Overlay*.lean` (read side) and `Proofs/OverlayWrite*.lean`
+(write side).
 
 Records are lists of containers **newest first**: `p :: r` is the record `r` with the patch
 container `p` added (`r ++ [p]` in file order), `self._files[-1]` is the head.
@@ -59,5 +70,267 @@ theorem view_fold (r : Rec V) (h : Inv r) :
     refine ⟨funext fun q => ?_, funext fun q => funext fun k => ?_⟩
     · rw [(view_snoc p r h q).1, List.foldr_cons, ih1]
     · rw [(view_snoc p r h q).2 k, List.foldr_cons, ih2]
+
+/-! ## (c) one write on the overlay is the same write on the plain tree
+
+`Rep r t` : the record `r` shows exactly the plain tree `t` — `∀ q, viewKind r q = kindAt t q ∧
+∀ k, viewAttr r q k = attrAt t q k`. `Inv r` is the record invariant (every container is a
+well-formed HDF5 file; pass-through groups of a patch sit on groups of the older view, or on a
+dataset without children, or inside a freshly written subtree). -/
+
+/-- **Refinement step**, for every operation of the alphabet (`set`, `grp`, `del`, `sattr`,
+`dattr`, `copy`, `move`, patch boundary) and every path: on a record with the invariant that
+shows the tree `t`, the overlay write path succeeds exactly when h5py would accept the call on
+the single tree `t`, the resulting record shows the resulting tree, and the invariant holds
+again. (`move` into the source's own subtree is refused by both sides.) -/
+theorem step_refines (r : Rec V) (t : Tree V) (op : Op V) (hne : r ≠ []) (hinv : Inv r) (hrep : Rep r t) :
+    (∀ r', W.step r op = .ok r' → ∃ t', Spec.step t op = .ok t' ∧ Rep r' t' ∧ Inv r' ∧ r' ≠ []) ∧
+    (∀ e, W.step r op = .error e → ∃ e', Spec.step t op = .error e') := by
+  rcases (step_sim r t op hne hinv hrep).cases with ⟨r1, t1, h1, h2, h3, h4, h5⟩ | ⟨e1, e2, h1, h2⟩
+  · refine ⟨fun r' h => ?_, fun e h => ?_⟩
+    · rw [h1] at h; cases h; exact ⟨t1, h2, h3, h4, h5⟩
+    · rw [h1] at h; cases h
+  · refine ⟨fun r' h => ?_, fun e h => ?_⟩
+    · rw [h1] at h; cases h
+    · exact ⟨e2, h2⟩
+
+/-- the refinement step as a closed statement -/
+def step_refines_statement : Prop :=
+  ∀ (V : Type) (r : Rec V) (t : Tree V) (op : Op V), r ≠ [] → Inv r → Rep r t →
+    (∀ r', W.step r op = .ok r' → ∃ t', Spec.step t op = .ok t' ∧ Rep r' t' ∧ Inv r' ∧ r' ≠ []) ∧
+    (∀ e, W.step r op = .error e → ∃ e', Spec.step t op = .error e')
+
+theorem step_refines_statement_holds : step_refines_statement :=
+  fun _ r t op hne hinv hrep => step_refines r t op hne hinv hrep
+
+/-- in particular the two sides agree on success -/
+theorem step_outcome_agrees (r : Rec V) (t : Tree V) (op : Op V) (hne : r ≠ []) (hinv : Inv r) (hrep : Rep r t) :
+    (W.step r op).toBool = (Spec.step t op).toBool := by
+  rcases (step_sim r t op hne hinv hrep).cases with ⟨r1, t1, h1, h2, _⟩ | ⟨e1, e2, h1, h2⟩ <;> rw [h1, h2] <;> rfl
+
+/-- the invariant is kept by every successful operation — no plain tree needed -/
+theorem inv_preserved (r r' : Rec V) (op : Op V) (hinv : Inv r)
+    (h : W.step r op = .ok r') : Inv r' ∧ r' ≠ [] :=
+  step_inv r r' op hinv h
+
+/-- every record shows some plain tree (its canonical listing), so `Rep r t` is never an empty
+hypothesis -/
+theorem rep_exists (r : Rec V) : Rep r (treeOf r) := rep_treeOf r
+
+/-- a fresh record satisfies the invariant and shows the fresh tree -/
+theorem init_inv_rep : Inv (Rec.init : Rec V) ∧ Rep (Rec.init : Rec V) (Tree.init : Tree V) :=
+  ⟨inv_init, rep_init⟩
+
+/-! ## (d) histories -/
+
+/-- **Refinement of histories.** Running any finite history of `set / grp / del / sattr / dattr /
+copy / move` operations with patch boundaries at arbitrary positions on a fresh IH5 record, and
+the same history on a fresh plain tree (`Spec.run` skips the boundaries, see
+`spec_run_ignores_boundaries`), gives the same list of outcomes (which calls succeeded) and a
+final record that shows exactly the final tree. -/
+theorem run_refines (h : List (Op V)) :
+    (W.run (Rec.init : Rec V) h).2 = (Spec.run (Tree.init : Tree V) h).2 ∧
+    Rep (W.run (Rec.init : Rec V) h).1 (Spec.run (Tree.init : Tree V) h).1 ∧
+    Inv (W.run (Rec.init : Rec V) h).1 :=
+  let ⟨a, b, c, _⟩ := run_sim_all h Rec.init Tree.init (by simp [Rec.init]) inv_init rep_init
+  ⟨a, b, c⟩
+
+/-- the same from any record with the invariant -/
+theorem run_refines_from (r : Rec V) (t : Tree V) (h : List (Op V))
+    (hne : r ≠ []) (hinv : Inv r) (hrep : Rep r t) :
+    (W.run r h).2 = (Spec.run t h).2 ∧ Rep (W.run r h).1 (Spec.run t h).1 ∧
+    Inv (W.run r h).1 ∧ (W.run r h).1 ≠ [] :=
+  run_sim_all h r t hne hinv hrep
+
+/-- everything but a patch boundary -/
+def notBoundary : Op V → Bool
+  | .patch => false
+  | _ => true
+
+/-- patch boundaries are invisible to the plain tree -/
+theorem spec_run_ignores_boundaries (t : Tree V) (h : List (Op V)) :
+    Spec.run t h = Spec.run t (h.filter notBoundary) := by
+  induction h generalizing t with
+  | nil => rfl
+  | cons op ops ih =>
+    by_cases hp : op = .patch
+    · subst hp
+      rw [srun_patch, ih]
+      simp [notBoundary]
+    · have hf : (op :: ops).filter notBoundary = op :: ops.filter notBoundary := by
+        cases op <;> first | exact absurd rfl hp | rfl
+      rw [hf]
+      cases hs : Spec.step t op with
+      | ok t' => rw [srun_ok t t' op _ hp hs, srun_ok t t' op _ hp hs, ih]
+      | error e => rw [srun_err t e op _ hp hs, srun_err t e op _ hp hs, ih]
+
+/-! ### corollaries named in the property
+
+`createsAt p op`: `op` is a `set`/`grp` at or below `p`, or a `copy`/`move` whose destination
+lies on the branch of `p`. `removesAbove p op`: `op` deletes or moves away `p` or an ancestor. -/
+
+theorem ne_nil_of_step_ok (r r1 : Rec V) (op : Op V) (h : W.step r op = .ok r1) : r ≠ [] := by
+  rintro rfl
+  exact ok_ne_err h (step_nil op)
+
+/-- **Deleted data never reappears.** After a successful `del p`, whatever operations (including
+`copy`/`move`) and patch boundaries follow — as long as nothing is created, copied or moved to
+`p`'s branch again — nothing is visible at or below `p`. -/
+theorem deleted_never_reappears (r r1 : Rec V) (p : Path) (h2 : List (Op V)) (hinv : Inv r)
+    (hdel : W.step r (.del p) = .ok r1) (hb : ∀ op ∈ h2, createsAt p op = false) :
+    ∀ s, viewKind (W.run r1 h2).1 (p ++ s) = none ∧ ∀ k, viewAttr (W.run r1 h2).1 (p ++ s) k = none := by
+  have hne := ne_nil_of_step_ok r r1 _ hdel
+  obtain ⟨t1, hs, hrep1, hinv1, hne1⟩ := (step_refines r (treeOf r) (.del p) hne hinv (rep_treeOf r)).1 r1 hdel
+  have habs : ∀ s, kindAt t1 (p ++ s) = none := by
+    intro s
+    simp only [Spec.step, Spec.delete] at hs
+    split at hs
+    · cases hs
+    · split at hs
+      · cases hs
+      · cases hs
+        rw [kindAt_removeSub, isPre_append]; rfl
+  obtain ⟨_, hrepf, _, _⟩ := run_sim_all h2 r1 t1 hne1 hinv1 hrep1
+  have hfin := run_stable (fun t => ∀ s, kindAt t (p ++ s) = none) (fun op => createsAt p op = false)
+    (fun r t t' op _ _ hrep hop hst hp => absent_stable_all r t t' op p hrep hop hst hp) h2 r1 t1 hne1 hinv1 hrep1 hb habs
+  intro s
+  have hk : viewKind (W.run r1 h2).1 (p ++ s) = none := by rw [(hrepf _).1]; exact hfin s
+  exact ⟨hk, fun k => viewAttr_none_of_viewKind_none _ _ hk k⟩
+
+/-- what is visible at `p` stays visible with the same kind and value, whatever operations and
+patch boundaries follow, as long as neither `p` nor an ancestor is deleted or moved away -/
+theorem visible_stays (r : Rec V) (p : Path) (kd : NKind V) (h2 : List (Op V)) (hne : r ≠ []) (hinv : Inv r)
+    (hk : viewKind r p = some kd) (hb : ∀ op ∈ h2, removesAbove p op = false) :
+    viewKind (W.run r h2).1 p = some kd := by
+  obtain ⟨_, hrepf, _, _⟩ := run_sim_all h2 r (treeOf r) hne hinv (rep_treeOf r)
+  have hfin := run_stable (fun t => kindAt t p = some kd) (fun op => removesAbove p op = false)
+    (fun r t t' op _ _ hrep hop hst hp => kind_stable_all r t t' op p kd hrep hop hst hp) h2 r (treeOf r)
+    hne hinv (rep_treeOf r) hb (by rw [← (rep_treeOf r p).1]; exact hk)
+  rw [(hrepf _).1]; exact hfin
+
+/-- **Newly created data is never hidden.** After a successful `set p v`, whatever operations and
+patch boundaries follow — as long as neither `p` nor an ancestor is deleted or moved away —
+`p` shows the dataset `v`. -/
+theorem created_never_hidden (r r1 : Rec V) (p : Path) (v : V) (h2 : List (Op V)) (hinv : Inv r)
+    (hset : W.step r (.set p v) = .ok r1) (hb : ∀ op ∈ h2, removesAbove p op = false) :
+    viewKind (W.run r1 h2).1 p = some (.data v) := by
+  have hne := ne_nil_of_step_ok r r1 _ hset
+  obtain ⟨t1, hs, hrep1, hinv1, hne1⟩ := (step_refines r (treeOf r) (.set p v) hne hinv (rep_treeOf r)).1 r1 hset
+  have hk1 : kindAt t1 p = some (.data v) := by
+    obtain ⟨_, rfl⟩ := spec_create_inv _ t1 p _ hs
+    rw [kindAt_aput]; simp
+  exact visible_stays r1 p _ h2 hne1 hinv1 (by rw [(hrep1 p).1]; exact hk1) hb
+
+/-- the same for a group created with `create_group` -/
+theorem created_group_never_hidden (r r1 : Rec V) (p : Path) (h2 : List (Op V)) (hinv : Inv r)
+    (hgrp : W.step r (.grp p) = .ok r1) (hb : ∀ op ∈ h2, removesAbove p op = false) :
+    viewKind (W.run r1 h2).1 p = some .group := by
+  have hne := ne_nil_of_step_ok r r1 _ hgrp
+  obtain ⟨t1, hs, hrep1, hinv1, hne1⟩ := (step_refines r (treeOf r) (.grp p) hne hinv (rep_treeOf r)).1 r1 hgrp
+  have hk1 : kindAt t1 p = some .group := by
+    obtain ⟨_, rfl⟩ := spec_create_inv _ t1 p _ hs
+    rw [kindAt_aput]; simp [emptyGroup]
+  exact visible_stays r1 p _ h2 hne1 hinv1 (by rw [(hrep1 p).1]; exact hk1) hb
+
+/-- **Replaced data never reappears.** A node at `p` (say a dataset) is deleted and a group is
+created in its place; whatever operations and patch boundaries follow (attribute writes on `p`,
+new children, copies, …) — as long as neither `p` nor an ancestor is deleted or moved away —
+`p` shows the new group, never the replaced node. (This is the situation of defect F1.) -/
+theorem replaced_never_reappears (r r1 r2 : Rec V) (p : Path) (h2 : List (Op V)) (hinv : Inv r)
+    (hdel : W.step r (.del p) = .ok r1) (hgrp : W.step r1 (.grp p) = .ok r2)
+    (hb : ∀ op ∈ h2, removesAbove p op = false) :
+    viewKind (W.run r2 h2).1 p = some .group :=
+  created_group_never_hidden r1 r2 p h2 (step_inv r r1 _ hinv hdel).1 hgrp hb
+
+/-- … and the same with a dataset written in place of the deleted node -/
+theorem replaced_by_dataset_never_reappears (r r1 r2 : Rec V) (p : Path) (v : V) (h2 : List (Op V)) (hinv : Inv r)
+    (hdel : W.step r (.del p) = .ok r1) (hset : W.step r1 (.set p v) = .ok r2)
+    (hb : ∀ op ∈ h2, removesAbove p op = false) :
+    viewKind (W.run r2 h2).1 p = some (.data v) :=
+  created_never_hidden r1 r2 p v h2 (step_inv r r1 _ hinv hdel).1 hset hb
+
+/-! ### non-vacuity -/
+
+/-- a history with two patch boundaries that produces every raw kind: datasets, a group with the
+SUBST marker, pass-through groups carrying attributes, a deletion marker, an attribute deletion
+marker; the last patch "touches" the group that replaced the dataset `/c` of the base container -/
+def exHist : List (Op Nat) :=
+  [.set ["c"] 5, .grp ["a"], .set ["a", "b"] 1, .sattr ["a"] "k" 7, .patch,
+   .del ["c"], .grp ["c"], .sattr ["a"] "j" 8, .dattr ["a"] "k", .del ["a", "b"], .patch,
+   .sattr ["c"] "k" 1, .set ["c", "d", "e"] 2]
+
+/-- the three containers it produces (newest first) -/
+def ex3 : Rec Nat :=
+  [[([], ⟨.vgroup, []⟩), (["c"], ⟨.vgroup, [("k", some 1)]⟩), (["c", "d"], ⟨.sgroup, []⟩),
+    (["c", "d", "e"], ⟨.data 2, []⟩)],
+   [([], ⟨.vgroup, []⟩), (["c"], ⟨.sgroup, []⟩), (["a"], ⟨.vgroup, [("j", some 8), ("k", none)]⟩),
+    (["a", "b"], ⟨.del, []⟩)],
+   [([], ⟨.vgroup, []⟩), (["c"], ⟨.data 5, []⟩), (["a"], ⟨.vgroup, [("k", some 7)]⟩),
+    (["a", "b"], ⟨.data 1, []⟩)]]
+
+theorem ex3_eq : (W.run Rec.init exHist).1 = ex3 := by decide
+
+/-- a concrete 3-container record containing every raw kind satisfies the invariant … -/
+example : Inv ex3 := ex3_eq ▸ (run_refines exHist).2.2
+
+/-- … and shows the tree that the same history builds in a single file -/
+example : Rep ex3 (Spec.run Tree.init exHist).1 := ex3_eq ▸ (run_refines exHist).2.1
+
+/-- the hypotheses of `step_refines` are met by `ex3`; e.g. creating `/a/b/x` works on
+both sides although `/a/b` was deleted in an older patch -/
+example : (W.step ex3 (.grp ["a", "b", "x"])).toBool = true ∧
+    (Spec.step (Spec.run Tree.init exHist).1 (.grp ["a", "b", "x"] : Op Nat)).toBool = true := by decide
+
+/-- a 5-operation history with two boundaries evaluates as `run_refines` states -/
+example :
+    let h : List (Op Nat) := [.set ["c"] 5, .patch, .del ["c"], .grp ["c"], .patch, .sattr ["c"] "k" 1, .set ["c"] 9]
+    (W.run Rec.init h).2 = [true, true, true, true, false] ∧
+    (Spec.run Tree.init h).2 = [true, true, true, true, false] ∧
+    viewKind (W.run Rec.init h).1 ["c"] = some .group ∧
+    kindAt (Spec.run Tree.init h).1 ["c"] = some .group ∧
+    viewAttr (W.run Rec.init h).1 ["c"] "k" = some 1 := by decide
+
+/-- copy into the source's own subtree and move with a missing destination parent, across patches -/
+example :
+    let h : List (Op Nat) := [.grp ["a"], .set ["a", "x"] 1, .sattr ["a"] "k" 2, .patch,
+      .copy ["a"] ["a", "b", "c"], .patch, .move ["a", "x"] ["n", "y"], .copy ["a"] ["a"]]
+    (W.run Rec.init h).2 = [true, true, true, true, true, false] ∧
+    (Spec.run Tree.init h).2 = [true, true, true, true, true, false] ∧
+    viewKind (W.run Rec.init h).1 ["a", "b", "c", "x"] = some (.data 1) ∧
+    viewAttr (W.run Rec.init h).1 ["a", "b", "c"] "k" = some 2 ∧
+    viewKind (W.run Rec.init h).1 ["a", "x"] = none ∧
+    viewKind (W.run Rec.init h).1 ["n", "y"] = some (.data 1) := by decide
+
+/-- the corollaries apply: after the base dataset `/c` was replaced by a group, touching it in a
+later patch does not bring the dataset back -/
+example : viewKind (W.run Rec.init exHist).1 ["c"] = some .group := by decide
+
+/-- the hypotheses of the corollaries are satisfiable: base dataset `/c`, a patch boundary, then
+`del /c` (and `grp /c`), then a history with another boundary, attribute writes and a copy -/
+def exBase : Rec Nat := [[([], ⟨.vgroup, []⟩)], [([], ⟨.vgroup, []⟩), (["c"], ⟨.data 5, []⟩)]]
+
+theorem exBase_inv : Inv exBase :=
+  (by decide : (W.run Rec.init [.set ["c"] 5, .patch]).1 = exBase) ▸ (run_refines [.set ["c"] 5, .patch]).2.2
+
+example : ∀ s, viewKind (W.run [[([], ⟨.vgroup, []⟩), (["c"], ⟨.del, []⟩)], [([], ⟨.vgroup, []⟩), (["c"], ⟨.data 5, []⟩)]]
+    [.patch, .sattr [] "k" 1, .grp ["a"], .copy ["a"] ["b"]]).1 (["c"] ++ s) = none :=
+  fun s => (deleted_never_reappears exBase _ ["c"] _ exBase_inv (by decide) (by decide) s).1
+
+example : viewKind (W.run [[([], ⟨.vgroup, []⟩), (["c"], ⟨.sgroup, []⟩)], [([], ⟨.vgroup, []⟩), (["c"], ⟨.data 5, []⟩)]]
+    [.patch, .sattr ["c"] "k" 1, .set ["c", "x"] 2, .copy ["c"] ["b"]]).1 ["c"] = some .group :=
+  replaced_never_reappears exBase
+    [[([], ⟨.vgroup, []⟩), (["c"], ⟨.del, []⟩)], [([], ⟨.vgroup, []⟩), (["c"], ⟨.data 5, []⟩)]] _ ["c"] _
+    exBase_inv (by decide) (by decide) (by decide)
+
+/-! ## (e) the pinned child scan was not transparent (defect F1) -/
+
+/-- With the pinned `_children` (the `is_virtual` flag is never updated) the dataset `/c` of the
+base container, replaced by a group in patch 1 and touched by a pass-through group in patch 2,
+is visible again — on the very record `ex3` that the fixed scan reads correctly. -/
+theorem legacy_scan_not_transparent :
+    ∃ (r : Rec Nat) (q : Path), Inv r ∧ Legacy.viewKind r q ≠ viewKind r q :=
+  ⟨ex3, ["c"], ex3_eq ▸ (run_refines exHist).2.2, by decide⟩
+
+example : Legacy.viewKind ex3 ["c"] = some (.data 5) ∧ viewKind ex3 ["c"] = some .group := by decide
 
 end MetadorModel.C01
